@@ -1,1 +1,1028 @@
-// stub
+//! TypeScript type-eraser + batched execution of the erased JavaScript under the real `node`.
+//!
+//! The sandbox's node (v20) cannot strip types and there is no `tsc`, so the harness erases the
+//! types itself.  The emitted TypeScript (`samlang_ast::lir::Sources::pretty_print`) has a very
+//! rigid shape; the eraser understands exactly that shape (plus a few unambiguous neighbours) and
+//! refuses everything else with `Err`, which callers treat as *inconclusive*.
+//!
+//! Erased tokens are replaced by spaces, so line and column numbers of the JavaScript are those of
+//! the TypeScript.
+//!
+//! Execution: one `node js/runner.js` process per batch; inside it a `worker_threads` Worker with a
+//! generous stack runs each program in a fresh `vm` context (see runner.js for the protocol).
+
+use crate::trace::{Ending, Limits, Trace, UbFlags};
+use std::io::{BufRead, BufReader, Write};
+use std::path::PathBuf;
+use std::process::{Child, Command, Stdio};
+use std::sync::atomic::{AtomicU64, Ordering};
+use std::sync::mpsc;
+use std::time::{Duration, Instant};
+
+// ---------------------------------------------------------------------------------------------
+// lexer
+// ---------------------------------------------------------------------------------------------
+
+#[derive(Clone, Copy, PartialEq, Eq, Debug)]
+enum K {
+  Trivia,
+  Ident,
+  Num,
+  Str,
+  Tpl,
+  Punct,
+}
+
+#[derive(Clone, Copy, Debug)]
+struct Tok {
+  k: K,
+  s: usize,
+  e: usize,
+  line: u32,
+}
+
+const PUNCTS: &[&str] = &[
+  ">>>=", "...", "===", "!==", "**=", "<<=", ">>=", ">>>", "&&=", "||=", "??=", "=>", "==", "!=",
+  "<=", ">=", "&&", "||", "??", "?.", "++", "--", "+=", "-=", "*=", "/=", "%=", "&=", "|=", "^=",
+  "<<", ">>", "**", "{", "}", "(", ")", "[", "]", ";", ",", "<", ">", "+", "-", "*", "/", "%", "&",
+  "|", "^", "!", "~", "?", ":", "=", ".",
+];
+
+fn is_id_start(b: u8) -> bool {
+  b.is_ascii_alphabetic() || b == b'_' || b == b'$'
+}
+fn is_id_part(b: u8) -> bool {
+  b.is_ascii_alphanumeric() || b == b'_' || b == b'$'
+}
+
+fn line_of(src: &[u8], pos: usize) -> usize {
+  1 + src[..pos.min(src.len())].iter().filter(|&&b| b == b'\n').count()
+}
+
+/// `i` is at the opening quote; returns the index just after the closing quote
+fn skip_string(b: &[u8], i: usize) -> Result<usize, String> {
+  let q = b[i];
+  let mut j = i + 1;
+  while j < b.len() {
+    match b[j] {
+      b'\\' => j += 2,
+      b'\n' => break,
+      c if c == q => return Ok(j + 1),
+      _ => j += 1,
+    }
+  }
+  Err(format!("lex: unterminated string literal starting at line {}", line_of(b, i)))
+}
+
+/// `i` is at the opening backtick; returns the index just after the closing backtick.
+/// `${ ... }` substitutions are skipped with proper nesting (strings, templates, comments, braces).
+fn skip_template(b: &[u8], i: usize) -> Result<usize, String> {
+  let mut j = i + 1;
+  while j < b.len() {
+    match b[j] {
+      b'\\' => j += 2,
+      b'`' => return Ok(j + 1),
+      b'$' if j + 1 < b.len() && b[j + 1] == b'{' => j = skip_substitution(b, j + 2)?,
+      _ => j += 1,
+    }
+  }
+  Err(format!("lex: unterminated template literal starting at line {}", line_of(b, i)))
+}
+
+/// `i` is just after `${`; returns the index just after the matching `}`
+fn skip_substitution(b: &[u8], i: usize) -> Result<usize, String> {
+  let mut depth = 1usize;
+  let mut j = i;
+  while j < b.len() {
+    match b[j] {
+      b'\'' | b'"' => j = skip_string(b, j)?,
+      b'`' => j = skip_template(b, j)?,
+      b'/' if j + 1 < b.len() && b[j + 1] == b'/' => {
+        while j < b.len() && b[j] != b'\n' {
+          j += 1;
+        }
+      }
+      b'/' if j + 1 < b.len() && b[j + 1] == b'*' => j = skip_block_comment(b, j)?,
+      b'{' => {
+        depth += 1;
+        j += 1;
+      }
+      b'}' => {
+        depth -= 1;
+        j += 1;
+        if depth == 0 {
+          return Ok(j);
+        }
+      }
+      _ => j += 1,
+    }
+  }
+  Err(format!("lex: unterminated ${{ substitution starting at line {}", line_of(b, i)))
+}
+
+fn skip_block_comment(b: &[u8], i: usize) -> Result<usize, String> {
+  let mut j = i + 2;
+  while j + 1 < b.len() {
+    if b[j] == b'*' && b[j + 1] == b'/' {
+      return Ok(j + 2);
+    }
+    j += 1;
+  }
+  Err(format!("lex: unterminated block comment starting at line {}", line_of(b, i)))
+}
+
+fn lex(src: &str) -> Result<Vec<Tok>, String> {
+  let b = src.as_bytes();
+  let mut out = Vec::with_capacity(b.len() / 3);
+  let mut i = 0usize;
+  let mut line = 1u32;
+  while i < b.len() {
+    let c = b[i];
+    let s = i;
+    let k;
+    if c == b' ' || c == b'\t' || c == b'\n' || c == b'\r' {
+      while i < b.len() && matches!(b[i], b' ' | b'\t' | b'\n' | b'\r') {
+        i += 1;
+      }
+      k = K::Trivia;
+    } else if c == b'/' && i + 1 < b.len() && b[i + 1] == b'/' {
+      while i < b.len() && b[i] != b'\n' {
+        i += 1;
+      }
+      k = K::Trivia;
+    } else if c == b'/' && i + 1 < b.len() && b[i + 1] == b'*' {
+      i = skip_block_comment(b, i)?;
+      k = K::Trivia;
+    } else if is_id_start(c) {
+      while i < b.len() && is_id_part(b[i]) {
+        i += 1;
+      }
+      k = K::Ident;
+    } else if c.is_ascii_digit() || (c == b'.' && i + 1 < b.len() && b[i + 1].is_ascii_digit()) {
+      i += 1;
+      while i < b.len() {
+        let d = b[i];
+        if d.is_ascii_alphanumeric() || d == b'_' || d == b'.' {
+          i += 1;
+        } else if (d == b'+' || d == b'-')
+          && matches!(b[i - 1], b'e' | b'E')
+          && !(b[s] == b'0' && s + 1 < b.len() && matches!(b[s + 1], b'x' | b'X'))
+        {
+          i += 1;
+        } else {
+          break;
+        }
+      }
+      k = K::Num;
+    } else if c == b'\'' || c == b'"' {
+      i = skip_string(b, i)?;
+      k = K::Str;
+    } else if c == b'`' {
+      i = skip_template(b, i)?;
+      k = K::Tpl;
+    } else if c >= 0x80 {
+      return Err(format!("lex: non-ASCII character outside a literal at line {line}"));
+    } else {
+      let rest = &src[i..];
+      match PUNCTS.iter().find(|p| rest.starts_with(**p)) {
+        Some(p) => i += p.len(),
+        None => {
+          return Err(format!("lex: unexpected character {:?} at line {line}", c as char));
+        }
+      }
+      k = K::Punct;
+    }
+    out.push(Tok { k, s, e: i, line });
+    line += b[s..i].iter().filter(|&&x| x == b'\n').count() as u32;
+  }
+  Ok(out)
+}
+
+// ---------------------------------------------------------------------------------------------
+// eraser
+// ---------------------------------------------------------------------------------------------
+
+/// identifiers that are always refused (TS-only constructs, or JS constructs whose bodies the
+/// eraser does not model)
+const REFUSED: &[&str] = &[
+  "enum",
+  "interface",
+  "namespace",
+  "declare",
+  "abstract",
+  "class",
+  "implements",
+  "satisfies",
+  "import",
+  "export",
+];
+
+/// keyword-like identifiers after which an expression (or a binding name) may start; they do not
+/// end an expression, and an identifier may legally follow them in JavaScript
+const PREFIX_KEYWORDS: &[&str] = &[
+  "return", "typeof", "throw", "new", "delete", "void", "in", "of", "instanceof", "case", "do",
+  "else", "yield", "await", "let", "const", "var", "function", "async",
+];
+
+/// identifiers a type may not start with (type operators / things that need more grammar)
+const TYPE_OPERATORS: &[&str] = &[
+  "keyof", "typeof", "infer", "readonly", "unique", "asserts", "new", "abstract", "const", "let",
+  "var", "function", "class", "enum", "interface", "as", "is", "in", "of", "extends",
+];
+
+struct Eraser<'a> {
+  src: &'a str,
+  /// significant (non-trivia) tokens
+  t: Vec<Tok>,
+  /// matching bracket of each significant token (for ( ) [ ] { })
+  mate: Vec<usize>,
+  erased: Vec<bool>,
+  prev_kept: Option<usize>,
+}
+
+const NONE: usize = usize::MAX;
+
+impl<'a> Eraser<'a> {
+  fn text(&self, p: usize) -> &'a str {
+    match self.t.get(p) {
+      Some(t) => &self.src[t.s..t.e],
+      None => "",
+    }
+  }
+  fn kind(&self, p: usize) -> Option<K> {
+    self.t.get(p).map(|t| t.k)
+  }
+  fn is(&self, p: usize, s: &str) -> bool {
+    // string / template tokens never compare equal to punctuation or keywords
+    matches!(self.kind(p), Some(K::Punct | K::Ident)) && self.text(p) == s
+  }
+  fn line(&self, p: usize) -> u32 {
+    self.t.get(p).map(|t| t.line).unwrap_or_else(|| self.t.last().map(|t| t.line).unwrap_or(1))
+  }
+  fn err<T>(&self, p: usize, what: &str) -> Result<T, String> {
+    let near = if p < self.t.len() { self.text(p) } else { "<end of file>" };
+    let near: String = near.chars().take(30).collect();
+    Err(format!("erase: {what} at line {} near `{near}`", self.line(p)))
+  }
+  fn keep(&mut self, p: usize) {
+    self.prev_kept = Some(p);
+  }
+  fn erase_range(&mut self, from: usize, to_excl: usize) {
+    for q in from..to_excl {
+      self.erased[q] = true;
+    }
+  }
+  fn is_plain_ident(&self, p: usize) -> bool {
+    self.kind(p) == Some(K::Ident) && !PREFIX_KEYWORDS.contains(&self.text(p))
+  }
+  /// does the last kept token end an expression?
+  fn prev_ends_expr(&self) -> bool {
+    match self.prev_kept {
+      None => false,
+      Some(p) => match self.t[p].k {
+        K::Num | K::Str | K::Tpl => true,
+        K::Ident => !PREFIX_KEYWORDS.contains(&self.text(p)),
+        K::Punct => matches!(self.text(p), ")" | "]"),
+        K::Trivia => false,
+      },
+    }
+  }
+  fn prev_is(&self, s: &str) -> bool {
+    self.prev_kept.is_some_and(|p| self.is(p, s))
+  }
+  fn at_stmt_start(&self) -> bool {
+    match self.prev_kept {
+      None => true,
+      Some(p) => self.t[p].k == K::Punct && matches!(self.text(p), ";" | "{" | "}"),
+    }
+  }
+
+  // ---- types (nothing here keeps or erases; callers erase the returned range) ----
+
+  /// parse a type starting at `q`; returns the position just after it
+  fn ty(&self, q: usize) -> Result<usize, String> {
+    let mut q = self.ty_primary(q)?;
+    while self.is(q, "[") {
+      if self.is(q + 1, "]") {
+        q += 2;
+      } else {
+        return self.err(q, "indexed-access type / ambiguous '[' after a type");
+      }
+    }
+    Ok(q)
+  }
+
+  fn ty_primary(&self, q: usize) -> Result<usize, String> {
+    match self.kind(q) {
+      Some(K::Ident) => {
+        if TYPE_OPERATORS.contains(&self.text(q)) {
+          return self.err(q, "unsupported type operator");
+        }
+        let mut r = q + 1;
+        if self.is(r, ".") {
+          return self.err(r, "qualified type name");
+        }
+        if self.is(r, "<") {
+          r += 1;
+          loop {
+            r = self.ty(r)?;
+            if self.is(r, ",") {
+              r += 1;
+            } else if self.is(r, ">") {
+              r += 1;
+              break;
+            } else {
+              return self.err(r, "unsupported type-argument list");
+            }
+          }
+        }
+        Ok(r)
+      }
+      Some(K::Punct) if self.is(q, "[") => {
+        // tuple type
+        let close = self.mate[q];
+        let mut r = q + 1;
+        if r == close {
+          return Ok(r + 1);
+        }
+        loop {
+          r = self.ty(r)?;
+          if r == close {
+            return Ok(r + 1);
+          }
+          if self.is(r, ",") {
+            r += 1;
+          } else {
+            return self.err(r, "unsupported tuple type element");
+          }
+        }
+      }
+      Some(K::Punct) if self.is(q, "(") => {
+        // function type: (t0: A, t1: B) => R
+        let close = self.mate[q];
+        let mut r = q + 1;
+        while r != close {
+          if !self.is_plain_ident(r) || !self.is(r + 1, ":") {
+            return self.err(r, "unsupported function-type parameter (or parenthesised type)");
+          }
+          r = self.ty(r + 2)?;
+          if self.is(r, ",") && r + 1 != close {
+            r += 1;
+          } else if r != close {
+            return self.err(r, "unsupported function-type parameter list");
+          }
+        }
+        if !self.is(close + 1, "=>") {
+          return self.err(close + 1, "parenthesised type (expected '=>')");
+        }
+        self.ty(close + 2)
+      }
+      _ => self.err(q, "expected a type"),
+    }
+  }
+
+  // ---- parameter lists ----
+
+  /// `open` is `(`; keeps the patterns, erases the annotations; returns position after `)`
+  fn params(&mut self, open: usize) -> Result<usize, String> {
+    let close = self.mate[open];
+    self.keep(open);
+    let mut q = open + 1;
+    while q != close {
+      // binding pattern
+      if self.kind(q) == Some(K::Ident) {
+        let name = self.text(q);
+        if PREFIX_KEYWORDS.contains(&name) || REFUSED.contains(&name) || name == "this" {
+          return self.err(q, "unsupported parameter name");
+        }
+        self.keep(q);
+        q += 1;
+      } else if self.is(q, "[") {
+        let pc = self.mate[q];
+        for r in q + 1..pc {
+          if !(self.is_plain_ident(r) || self.is(r, ",")) {
+            return self.err(r, "unsupported array binding pattern");
+          }
+        }
+        q = pc + 1;
+        self.keep(pc);
+      } else {
+        return self.err(q, "unsupported parameter pattern");
+      }
+      // annotation
+      if self.is(q, ":") {
+        let r = self.ty(q + 1)?;
+        self.erase_range(q, r);
+        q = r;
+      }
+      if self.is(q, ",") && q + 1 != close {
+        self.keep(q);
+        q += 1;
+      } else if q != close {
+        return self.err(q, "unsupported parameter (optional / default / modifier?)");
+      }
+    }
+    self.keep(close);
+    Ok(close + 1)
+  }
+
+  /// is the `(` at `open` the start of an arrow function's parameter list?
+  /// Returns the position of the `=>`.
+  fn arrow_after(&self, open: usize) -> Option<usize> {
+    let close = self.mate[open];
+    if self.is(close + 1, "=>") {
+      return Some(close + 1);
+    }
+    if self.is(close + 1, ":") {
+      if let Ok(r) = self.ty(close + 2) {
+        if self.is(r, "=>") {
+          return Some(r);
+        }
+      }
+    }
+    None
+  }
+
+  // ---- main pass ----
+
+  fn run(&mut self) -> Result<(), String> {
+    let n = self.t.len();
+    let mut p = 0usize;
+    while p < n {
+      let txt = self.text(p);
+      match self.t[p].k {
+        K::Trivia => unreachable!(),
+        K::Num | K::Str | K::Tpl => {
+          self.keep(p);
+          p += 1;
+        }
+        K::Ident => {
+          if self.prev_is(".") {
+            self.keep(p);
+            p += 1;
+            continue;
+          }
+          if REFUSED.contains(&txt) {
+            return self.err(p, "unsupported construct");
+          }
+          match txt {
+            "type"
+              if self.at_stmt_start() && self.is_plain_ident(p + 1) && self.is(p + 2, "=") =>
+            {
+              let q = self.ty(p + 3)?;
+              if !self.is(q, ";") {
+                return self.err(q, "unsupported type alias (expected ';' after the type)");
+              }
+              self.erase_range(p, q + 1);
+              p = q + 1;
+            }
+            "type"
+              if self.at_stmt_start() && self.is_plain_ident(p + 1) && self.is(p + 2, "<") =>
+            {
+              return self.err(p, "generic type alias");
+            }
+            "let" | "const" | "var" => {
+              self.keep(p);
+              p += 1;
+              if self.is_plain_ident(p) && self.is(p + 1, ":") {
+                let q = self.ty(p + 2)?;
+                if !(self.is(q, "=") || self.is(q, ";")) {
+                  return self.err(q, "unsupported declaration (expected '=' or ';' after type)");
+                }
+                self.keep(p);
+                self.erase_range(p + 1, q);
+                p = q;
+              }
+            }
+            "function" => {
+              self.keep(p);
+              p += 1;
+              if self.is(p, "*") {
+                return self.err(p, "generator function");
+              }
+              if self.is_plain_ident(p) {
+                self.keep(p);
+                p += 1;
+              }
+              if self.is(p, "<") {
+                // type parameters: plain names only
+                let mut q = p + 1;
+                loop {
+                  if !self.is_plain_ident(q) {
+                    return self.err(q, "unsupported type-parameter list");
+                  }
+                  q += 1;
+                  if self.is(q, ",") {
+                    q += 1;
+                  } else if self.is(q, ">") {
+                    q += 1;
+                    break;
+                  } else {
+                    return self.err(q, "unsupported type-parameter list");
+                  }
+                }
+                self.erase_range(p, q);
+                p = q;
+              }
+              if !self.is(p, "(") {
+                return self.err(p, "expected '(' after function name");
+              }
+              p = self.params(p)?;
+              if self.is(p, ":") {
+                let q = self.ty(p + 1)?;
+                self.erase_range(p, q);
+                p = q;
+              }
+              if !self.is(p, "{") {
+                return self.err(p, "function signature without body / unsupported return type");
+              }
+            }
+            "as" => {
+              let same_line = self.prev_kept.is_some_and(|q| self.t[q].line == self.t[p].line);
+              if self.prev_ends_expr() && same_line {
+                let q = self.ty(p + 1)?;
+                if !(self.is(q, ";")
+                  || self.is(q, ")")
+                  || self.is(q, "]")
+                  || self.is(q, ",")
+                  || self.is(q, "as"))
+                {
+                  return self.err(q, "unsupported token after a cast type");
+                }
+                self.erase_range(p, q);
+                p = q;
+              } else if self.prev_is("}") || self.prev_is("++") || self.prev_is("--") {
+                return self.err(p, "ambiguous 'as'");
+              } else {
+                self.keep(p);
+                p += 1;
+              }
+            }
+            _ => {
+              self.keep(p);
+              p += 1;
+            }
+          }
+        }
+        K::Punct => match txt {
+          ":" => return self.err(p, "':' outside a known annotation position"),
+          "?" | "?." | "??" | "??=" => {
+            return self.err(p, "'?' (optional / conditional / nullish) is not modelled");
+          }
+          "(" => {
+            if let Some(arrow) = self.arrow_after(p) {
+              let after = self.params(p)?;
+              if after != arrow {
+                self.erase_range(after, arrow);
+              }
+              p = arrow;
+            } else {
+              self.keep(p);
+              p += 1;
+            }
+          }
+          "!" => {
+            let same_line = self.prev_kept.is_some_and(|q| self.t[q].line == self.t[p].line);
+            if self.prev_ends_expr() && same_line {
+              return self.err(p, "postfix '!' (non-null assertion) or ambiguous '!'");
+            }
+            self.keep(p);
+            p += 1;
+          }
+          "<" => {
+            if !self.prev_ends_expr() {
+              return self.err(p, "'<' in prefix position (type assertion / generic arrow)");
+            }
+            // f<T>(x): a type-argument list followed by '(' is refused
+            let mut q = p + 1;
+            let mut generic_call = false;
+            while let Ok(r) = self.ty(q) {
+              if self.is(r, ",") {
+                q = r + 1;
+              } else {
+                generic_call = self.is(r, ">") && self.is(r + 1, "(");
+                break;
+              }
+            }
+            if generic_call {
+              return self.err(p, "explicit type arguments on a call");
+            }
+            self.keep(p);
+            p += 1;
+          }
+          "/" | "/=" => {
+            if !self.prev_ends_expr() && !self.prev_is("}") {
+              return self.err(p, "regular-expression literal");
+            }
+            self.keep(p);
+            p += 1;
+          }
+          _ => {
+            self.keep(p);
+            p += 1;
+          }
+        },
+      }
+    }
+    // residue check: two adjacent identifiers are JavaScript only after a prefix keyword or
+    // around a keyword operator; everything else is left-over TypeScript
+    let mut last: Option<usize> = None;
+    for q in 0..n {
+      if self.erased[q] {
+        continue;
+      }
+      if let Some(l) = last {
+        if self.t[l].k == K::Ident && self.t[q].k == K::Ident {
+          let a = self.text(l);
+          let b = self.text(q);
+          let ok = PREFIX_KEYWORDS.contains(&a)
+            || matches!(b, "in" | "of" | "instanceof")
+            || matches!(a, "break" | "continue") && self.t[l].line != self.t[q].line;
+          if !ok {
+            return self.err(q, "two adjacent identifiers (left-over TypeScript?)");
+          }
+        }
+      }
+      last = Some(q);
+    }
+    Ok(())
+  }
+}
+
+/// Type-erase the emitted TypeScript into JavaScript. Never rewrites inside string literals,
+/// template literals or comments. `Err(reason)` for every shape it does not know (callers treat
+/// that as "inconclusive", never as a compiler bug). Reasons starting with `lex:` mean the text
+/// could not even be tokenised (unterminated literal, stray character).
+///
+/// Handled: `type X = T;` statements (removed); `let|const|var x: T` (followed by `=` or `;`);
+/// `function f<A, B>(p: T, [, q]: T): T {`; arrow functions `(p: T, [, q]: T): T =>`;
+/// `e as T` chains followed by `;` `)` `]` `,`.  Types: names, `Name<T, ..>`, tuples `[T, ..]`,
+/// arrays `T[]`, function types `(t0: T, ..) => T`.
+pub fn erase(ts: &str) -> Result<String, String> {
+  let all = lex(ts)?;
+  let sig: Vec<Tok> = all.iter().copied().filter(|t| t.k != K::Trivia).collect();
+  // bracket matching
+  let mut mate = vec![NONE; sig.len()];
+  let mut stack: Vec<usize> = Vec::new();
+  for (i, t) in sig.iter().enumerate() {
+    if t.k != K::Punct {
+      continue;
+    }
+    let s = &ts[t.s..t.e];
+    match s {
+      "(" | "[" | "{" => stack.push(i),
+      ")" | "]" | "}" => {
+        let want = match s {
+          ")" => "(",
+          "]" => "[",
+          _ => "{",
+        };
+        match stack.pop() {
+          Some(o) if &ts[sig[o].s..sig[o].e] == want => {
+            mate[o] = i;
+            mate[i] = o;
+          }
+          _ => return Err(format!("lex: unbalanced `{s}` at line {}", t.line)),
+        }
+      }
+      _ => {}
+    }
+  }
+  if let Some(o) = stack.pop() {
+    return Err(format!("lex: unclosed `{}` at line {}", &ts[sig[o].s..sig[o].e], sig[o].line));
+  }
+  let n = sig.len();
+  let mut er = Eraser { src: ts, t: sig, mate, erased: vec![false; n], prev_kept: None };
+  er.run()?;
+  // output: verbatim, erased tokens blanked (newlines kept)
+  let mut out = String::with_capacity(ts.len());
+  let mut si = 0usize;
+  for t in &all {
+    let text = &ts[t.s..t.e];
+    if t.k == K::Trivia {
+      out.push_str(text);
+      continue;
+    }
+    if er.erased[si] {
+      for ch in text.chars() {
+        out.push(if ch == '\n' { '\n' } else { ' ' });
+      }
+    } else {
+      out.push_str(text);
+    }
+    si += 1;
+  }
+  Ok(out)
+}
+
+// ---------------------------------------------------------------------------------------------
+// node
+// ---------------------------------------------------------------------------------------------
+
+pub const RUNNER_JS: &str = concat!(env!("CARGO_MANIFEST_DIR"), "/../js/runner.js");
+
+/// old-generation heap cap of the worker (MB); exceeding it kills only the worker
+pub const HEAP_MB: u64 = 512;
+
+/// Stack (MB) of the worker thread that runs the programs, derived from `limits.max_depth` at a
+/// budget of 4 KB per frame, clamped to 16..=512 MB (16 MB holds roughly 190 000 small optimised
+/// frames and tens of thousands of interpreter frames; `tests.AllTests` needs less than 1 MB).
+/// A bigger stack is not free: exhausting it takes about 3 ms per MB (256 MB: 0.7 - 4 s), which
+/// competes with the per-program timeout. `VERIF_TS_STACK_MB` overrides.
+pub fn stack_mb(limits: &Limits) -> u64 {
+  if let Some(v) = std::env::var("VERIF_TS_STACK_MB").ok().and_then(|v| v.parse::<u64>().ok()) {
+    return v.clamp(1, 900);
+  }
+  ((limits.max_depth as u64).saturating_mul(4096) / (1 << 20)).clamp(16, 512)
+}
+
+fn node_bin() -> String {
+  std::env::var("VERIF_NODE").unwrap_or_else(|_| "node".to_string())
+}
+
+static TMP_SEQ: AtomicU64 = AtomicU64::new(0);
+
+/// unique per-process scratch directory, removed on drop
+struct Scratch(PathBuf);
+
+impl Scratch {
+  fn new() -> Result<Scratch, String> {
+    let n = TMP_SEQ.fetch_add(1, Ordering::SeqCst);
+    let nanos = std::time::SystemTime::now()
+      .duration_since(std::time::UNIX_EPOCH)
+      .map(|d| d.subsec_nanos())
+      .unwrap_or(0);
+    let p = std::env::temp_dir().join(format!("verif_tsrun_{}_{}_{}", std::process::id(), n, nanos));
+    std::fs::create_dir_all(&p).map_err(|e| format!("cannot create {}: {e}", p.display()))?;
+    Ok(Scratch(p))
+  }
+}
+
+impl Drop for Scratch {
+  fn drop(&mut self) {
+    let _ = std::fs::remove_dir_all(&self.0);
+  }
+}
+
+/// `node --check` on a JS text: Ok(()) or Err(first syntax error message with line/col)
+pub fn syntax_check(js: &str) -> Result<(), String> {
+  let dir = Scratch::new()?;
+  let file = dir.0.join("check.js");
+  std::fs::write(&file, js).map_err(|e| format!("cannot write {}: {e}", file.display()))?;
+  let out = Command::new(node_bin())
+    .arg("--check")
+    .arg(&file)
+    .stdin(Stdio::null())
+    .output()
+    .map_err(|e| format!("cannot start node: {e}"))?;
+  if out.status.success() {
+    return Ok(());
+  }
+  // stderr looks like:
+  //   /tmp/.../check.js:12
+  //   <source line>
+  //       ^^^
+  //   <blank>
+  //   SyntaxError: Unexpected token ':'
+  let err = String::from_utf8_lossy(&out.stderr);
+  let mut line_no = String::new();
+  let mut col = None;
+  let mut msg = String::new();
+  let fname = file.to_string_lossy().to_string();
+  for l in err.lines() {
+    if let Some(rest) = l.strip_prefix(&fname) {
+      line_no = rest.trim_start_matches(':').to_string();
+    } else if col.is_none() && !l.is_empty() && l.trim_start().starts_with('^') {
+      col = Some(l.len() - l.trim_start().len() + 1);
+    } else if l.starts_with("SyntaxError") && msg.is_empty() {
+      msg = l.to_string();
+    }
+  }
+  if msg.is_empty() {
+    msg = err.lines().find(|l| !l.trim().is_empty()).unwrap_or("node --check failed").to_string();
+  }
+  Err(format!("{msg} (line {line_no}, col {})", col.map(|c| c.to_string()).unwrap_or_default()))
+}
+
+/// one JSON line of runner.js -> Trace
+fn trace_of_json(v: &serde_json::Value) -> Trace {
+  let lines: Vec<String> = v
+    .get("lines")
+    .and_then(|l| l.as_array())
+    .map(|a| a.iter().map(|s| s.as_str().unwrap_or("").to_string()).collect())
+    .unwrap_or_default();
+  let s = |k: &str| v.get(k).and_then(|x| x.as_str()).unwrap_or("").to_string();
+  let ending = match v.get("end").and_then(|e| e.as_str()).unwrap_or("") {
+    "return" => Ending::Return,
+    "panic" => Ending::Panic(s("msg")),
+    "vecbounds" => Ending::VecBounds,
+    "stack" => Ending::StackExhausted,
+    "timeout" | "lines" => Ending::StepLimit,
+    "syntax" => Ending::Fault { kind: "SyntaxError".to_string(), at: s("msg") },
+    "fault" => Ending::Fault { kind: s("kind"), at: s("at") },
+    "harness" => Ending::Harness(s("msg")),
+    other => Ending::Harness(format!("runner.js protocol: unknown end {other:?}")),
+  };
+  let steps = v.get("ms").and_then(|m| m.as_u64()).unwrap_or(0);
+  Trace { lines, ending, ub: UbFlags::default(), steps }
+}
+
+enum BatchStop {
+  /// every program answered
+  Done,
+  /// node exited / closed its pipe before answering the next program
+  Died(String),
+  /// no answer within the deadline; the process was killed
+  Hung,
+  /// could not even start
+  NoStart(String),
+  /// a line that is not the expected JSON
+  Protocol(String),
+}
+
+fn kill(child: &mut Child) {
+  let _ = child.kill();
+  let _ = child.wait();
+}
+
+/// run `progs` in one node process; returns the traces of the programs that answered (a prefix)
+/// and why it stopped
+fn run_process(progs: &[String], limits: &Limits, timeout_ms: u64) -> (Vec<Trace>, BatchStop) {
+  let mut got: Vec<Trace> = Vec::with_capacity(progs.len());
+  let dir = match Scratch::new() {
+    Ok(d) => d,
+    Err(e) => return (got, BatchStop::NoStart(e)),
+  };
+  let req = serde_json::json!({
+    "programs": progs,
+    "timeoutMs": timeout_ms.max(1),
+    "maxLines": limits.max_lines,
+    "stackMb": stack_mb(limits),
+    "heapMb": HEAP_MB,
+  });
+  let req_path = dir.0.join("request.json");
+  {
+    let mut f = match std::fs::File::create(&req_path) {
+      Ok(f) => f,
+      Err(e) => return (got, BatchStop::NoStart(format!("cannot write request: {e}"))),
+    };
+    if let Err(e) = f.write_all(req.to_string().as_bytes()) {
+      return (got, BatchStop::NoStart(format!("cannot write request: {e}")));
+    }
+  }
+  let mut child = match Command::new(node_bin())
+    .arg(RUNNER_JS)
+    .arg(&req_path)
+    .stdin(Stdio::null())
+    .stdout(Stdio::piped())
+    .stderr(Stdio::piped())
+    .spawn()
+  {
+    Ok(c) => c,
+    Err(e) => return (got, BatchStop::NoStart(format!("cannot start node: {e}"))),
+  };
+  let stdout = child.stdout.take().unwrap();
+  let stderr = child.stderr.take().unwrap();
+  let (tx, rx) = mpsc::channel::<Option<String>>();
+  let reader = std::thread::spawn(move || {
+    let mut r = BufReader::new(stdout);
+    loop {
+      let mut line = String::new();
+      match r.read_line(&mut line) {
+        Ok(0) | Err(_) => {
+          let _ = tx.send(None);
+          break;
+        }
+        Ok(_) => {
+          if tx.send(Some(line)).is_err() {
+            break;
+          }
+        }
+      }
+    }
+  });
+  let err_reader = std::thread::spawn(move || {
+    let mut s = String::new();
+    let _ = std::io::Read::read_to_string(&mut BufReader::new(stderr), &mut s);
+    s
+  });
+  // generous per-answer deadline: the vm timeout should fire long before; this is the backstop
+  // for node start-up, worker restarts and uninterruptible builtins
+  let slack = Duration::from_millis(timeout_ms.saturating_mul(3) + 15_000);
+  let mut stop = BatchStop::Done;
+  while got.len() < progs.len() {
+    match rx.recv_timeout(slack) {
+      Ok(Some(line)) => {
+        let line = line.trim();
+        if line.is_empty() {
+          continue;
+        }
+        match serde_json::from_str::<serde_json::Value>(line) {
+          Ok(v) if v.get("end").is_some() => got.push(trace_of_json(&v)),
+          Ok(v) if v.get("fatal").is_some() => {
+            stop = BatchStop::Protocol(format!(
+              "runner.js: {}",
+              v.get("fatal").and_then(|f| f.as_str()).unwrap_or("?")
+            ));
+            break;
+          }
+          _ => {
+            let head: String = line.chars().take(200).collect();
+            stop = BatchStop::Protocol(format!("runner.js protocol: unexpected line {head:?}"));
+            break;
+          }
+        }
+      }
+      Ok(None) | Err(mpsc::RecvTimeoutError::Disconnected) => {
+        stop = BatchStop::Died(String::new());
+        break;
+      }
+      Err(mpsc::RecvTimeoutError::Timeout) => {
+        stop = BatchStop::Hung;
+        break;
+      }
+    }
+  }
+  match stop {
+    BatchStop::Done => {
+      let _ = child.wait();
+    }
+    BatchStop::Died(_) => {
+      let status = child.wait().map(|s| s.to_string()).unwrap_or_default();
+      let _ = reader.join();
+      let e = err_reader.join().unwrap_or_default();
+      let first = e.lines().find(|l| !l.trim().is_empty()).unwrap_or("").to_string();
+      return (got, BatchStop::Died(format!("{status}; {first}")));
+    }
+    _ => kill(&mut child),
+  }
+  let _ = reader.join();
+  let _ = err_reader.join();
+  (got, stop)
+}
+
+/// Run many erased programs in ONE node process (amortise start-up), each in a fresh `vm` context
+/// with its own captured console.log, with a per-program timeout (ms) and the given line limit
+/// (`limits.max_lines`); `max_depth` only sizes the worker's stack (see [`stack_mb`]) and
+/// `max_steps` has no node equivalent (the step budget is the timeout). Returns one Trace per program, in order.
+///
+/// If the node process dies or hangs, the program it was running gets re-run alone (to tell a
+/// culprit from a victim) and the rest of the batch continues in a new process.
+pub fn run_batch(js_programs: &[String], limits: &Limits, per_program_timeout_ms: u64) -> Vec<Trace> {
+  let mut out: Vec<Trace> = Vec::with_capacity(js_programs.len());
+  let mut alone_next = false;
+  while out.len() < js_programs.len() {
+    let start = out.len();
+    let slice =
+      if alone_next { &js_programs[start..start + 1] } else { &js_programs[start..] };
+    let was_alone = slice.len() == 1;
+    alone_next = false;
+    let (got, stop) = run_process(slice, limits, per_program_timeout_ms);
+    let answered = got.len();
+    out.extend(got);
+    match stop {
+      BatchStop::Done => {}
+      BatchStop::NoStart(e) | BatchStop::Protocol(e) => {
+        // not attributable to a program: everything left is inconclusive
+        while out.len() < js_programs.len() {
+          out.push(Trace::harness(e.clone()));
+        }
+      }
+      BatchStop::Died(why) => {
+        if was_alone || answered > 0 {
+          if was_alone {
+            out.push(Trace::harness(format!("node died ({why})")));
+          } else {
+            // first unanswered program is the suspect: re-run it alone
+            alone_next = true;
+          }
+        } else {
+          // died before answering anything: suspect is the first one, try it alone
+          alone_next = true;
+        }
+      }
+      BatchStop::Hung => {
+        if was_alone {
+          out.push(Trace::harness("node hung (killed)".to_string()));
+        } else {
+          alone_next = true;
+        }
+      }
+    }
+  }
+  out.truncate(js_programs.len());
+  out
+}
+
+pub fn run_one(js: &str, limits: &Limits, timeout_ms: u64) -> Trace {
+  run_batch(std::slice::from_ref(&js.to_string()), limits, timeout_ms)
+    .pop()
+    .unwrap_or_else(|| Trace::harness("run_batch returned nothing"))
+}
+
+/// wall-clock cost of starting node + runner.js + worker with an empty batch of one trivial program
+pub fn measure_startup() -> Duration {
+  let t = Instant::now();
+  let _ = run_one("", &Limits::default(), 1000);
+  t.elapsed()
+}
